@@ -3,8 +3,9 @@
 import json, os, shutil, sys
 VERIF = os.path.dirname(os.path.dirname(os.path.abspath(__file__)))
 area, v = sys.argv[1], sys.argv[2]
-src = '/tmp/seed3/%s/out' % area
-dst = os.path.join(VERIF, 'seeded', '%s-3%s' % (area, v))
+rnd = sys.argv[3] if len(sys.argv) > 3 else '3'
+src = '/tmp/seed%s/%s/out' % (rnd, area)
+dst = os.path.join(VERIF, 'seeded', '%s-%s%s' % (area, rnd, v))
 if not os.path.exists(os.path.join(src, 'patch_%s.diff' % v)):
     sys.exit('no variant ' + v)
 os.makedirs(dst, exist_ok=True)
@@ -12,7 +13,7 @@ shutil.copy(os.path.join(src, 'patch_%s.diff' % v), os.path.join(dst, 'patch.dif
 shutil.copy(os.path.join(src, 'seeded_demo_%s.rs' % v), os.path.join(dst, 'seeded_demo.rs'))
 meta = json.load(open(os.path.join(src, 'meta_%s.json' % v)))
 meta['property'] = str(meta.get('property', ''))[:3]
-meta['round'] = 3
+meta['round'] = int(rnd)
 meta['focus'] = area
 json.dump(meta, open(os.path.join(dst, 'meta.json'), 'w'), indent=1)
 print(dst, meta['property'])
